@@ -57,6 +57,41 @@ def run(tier):
         "argument redirections (Q6), unknown vs canonical return (Q7), reset (Q8). Necessary conditions; the equality of the reported "
         "option sequence with the grammar over all argument vectors is not decided.",
         trusted=["the GETOPT_SWITCH / GETOPT_OPT macros' line-number dispatch (util/getopt.h) is not analysed"])
+    return rules(rep)
+
+
+class Only:
+    """A view of a report that records only the named rules (another property running part of this rule set)."""
+
+    def __init__(self, rep, names):
+        self._rep, self._names = rep, set(names)
+
+    def check(self, ok, rule, *a, **k):
+        return self._rep.check(ok, rule, *a, **k) if rule in self._names else ok
+
+    def bad(self, rule, *a, **k):
+        if rule in self._names:
+            self._rep.bad(rule, *a, **k)
+
+    def ok(self, rule, *a, **k):
+        if rule in self._names:
+            self._rep.ok(rule, *a, **k)
+
+    def require_min(self, rule, n):
+        if rule in self._names:
+            self._rep.require_min(rule, n)
+
+    def __getattr__(self, name):
+        return getattr(self._rep, name)
+
+    def __setattr__(self, name, v):
+        if name in ("_rep", "_names"):
+            object.__setattr__(self, name, v)
+        else:
+            setattr(self._rep, name, v)
+
+
+def rules(rep):
     prog = ir.Program([UNIT], cdb.HOST)
     rep.add_stats(prog)
     u = prog.unit(UNIT)
